@@ -82,6 +82,23 @@ func c12Configs() []c12Config {
 		r = cp()
 		r[len(r)-1].Entries[len(r[len(r)-1].Entries)-1].IPFilter = c12Filter
 		cs = append(cs, c12Config{name: n + "/ip-lastpath", rules: r, hasIP: true})
+		// the first rule denies the client, and some OTHER level carries a filter that does not (so that the matching
+		// path has a filter chain of its own which does not contain the first rule's filter)
+		const other = "{blockIPs: [9.9.9.9]}"
+		if len(base) > 1 {
+			r = cp()
+			r[0].IPFilter, r[1].IPFilter = c12Filter, other
+			cs = append(cs, c12Config{name: n + "/ip-rule0+other-on-rule1", rules: r, hasIP: true})
+			r = cp()
+			r[0].IPFilter = c12Filter
+			for j := range r[1].Entries {
+				r[1].Entries[j].IPFilter = other
+			}
+			cs = append(cs, c12Config{name: n + "/ip-rule0+other-on-rule1-paths", rules: r, hasIP: true})
+		}
+		r = cp()
+		r[0].IPFilter = c12Filter
+		cs = append(cs, c12Config{name: n + "/ip-rule0+other-on-server", rules: r, extra: "ipFilter: " + other + "\n", hasIP: true})
 	}
 	// systematic family: every rule set with 2 entries (in one rule or in two rules) from a small entry
 	// menu x host matchers, without ip filters (header-conditioned and unconditional entries in any arrangement)
